@@ -13,10 +13,17 @@ RULE = ("float32 3-vectors: random directions, neighbourhoods of the 6 vertices 
         "QuantizedOctahedralCoordsToUnitVector of the real OctahedronToolBox compared bit for bit with the model "
         "(Float/Float32 instance); unit length, angle bound and coordinate range evaluated on the implementation's "
         "output; plus integer vectors on the L1 sphere and grid points through canonicalisation; distinct op lines")
-THEOREM_BACKED = ("integer half: intvec_coords_in_square(_q), floatvec_coords_in_square, canonicalize_canonical/"
-                  "idempotent, canonicalizeIntVec_abs_sum (coordinates inside the q-bit square and canonical for every input)")
-CORRESPONDENCE_ONLY = "unit length and the angular bound of the float decode (no Lean theorem yet; evaluated per case)"
-EXPLANATION = "integer core proved for all inputs; float part tied bit-exactly and the numeric bound evaluated on the implementation"
+THEOREM_BACKED = ('integer half: intvec_coords_in_square(_q), floatvec_coords_in_square, canonicalize_canonical/idempotent,'
+                  ' canonicalizeIntVec_abs_sum (coordinates inside the q-bit square and canonical for every input); '
+                  'exact-arithmetic geometric half for q >= 3: angle_bound_partial, angle_bound_exact (arccos(n.v/(|n||v|))'
+                  ' <= 3*(2/(2^q-2)) for the exact octahedral projection and the nearest grid point incl. the repair '
+                  'branch), octa_fixed_point (the generic decoder, tied to the Float32 model by '
+                  'coordsToUnitVector_eq_generic, returns v/c), angle_bound_exact_decoded')
+CORRESPONDENCE_ONLY = ('the float half: unit length within 1e-6, the +2e-6 allowance of the angular bound under the float '
+                       'roundings of encoder, decoder and normalisation, q = 2, NaN-freedom for zero / denormal input — '
+                       'evaluated per case on the implementation, not proved')
+EXPLANATION = ('integer core proved for all inputs; the angular bound proved in exact arithmetic (q >= 3); the float '
+               'code is tied bit-exactly and its numeric bound evaluated on the implementation')
 ASSUMPTIONS = ["IEEE-754 binary32/binary64 arithmetic of g++ x86-64 SSE equals Lean's Float32/Float"]
 
 
